@@ -51,7 +51,7 @@ func TestTriageF19(t *testing.T) {
 	}
 
 	// Wait for the connection handler (room1 joined).
-	waitFor(t, 5*time.Second, "room1 joined", func() bool {
+	triageF19WaitFor(t, 5*time.Second, "room1 joined", func() bool {
 		rooms, ok := io.Of("/").Adapter().SocketRooms(SocketID(sioSid))
 		return ok && rooms.Contains("room1")
 	})
@@ -69,7 +69,7 @@ func TestTriageF19(t *testing.T) {
 
 	// Abrupt disconnection (engine.io close packet) => session is persisted.
 	utils.EIOPush(t, ts, sid, "1")
-	waitFor(t, 5*time.Second, "1st socket to be gone", func() bool {
+	triageF19WaitFor(t, 5*time.Second, "1st socket to be gone", func() bool {
 		_, ok := io.Of("/").Adapter().SocketRooms(SocketID(sioSid))
 		return len(io.Sockets()) == 0 && !ok
 	})
@@ -119,7 +119,7 @@ func TestTriageF19(t *testing.T) {
 	}
 }
 
-func waitFor(t *testing.T, timeout time.Duration, what string, cond func() bool) {
+func triageF19WaitFor(t *testing.T, timeout time.Duration, what string, cond func() bool) {
 	t.Helper()
 	deadline := time.Now().Add(timeout)
 	for time.Now().Before(deadline) {
